@@ -4,6 +4,7 @@ import Goat.Driver.OMap
 import Goat.Driver.Load
 import Goat.Driver.TreeSort
 import Goat.Driver.Scope
+import Goat.Driver.Opt
 /-! goatmodel: one operation per input line, one canonical output line per operation. -/
 open Goat.Driver
 
@@ -17,6 +18,7 @@ def step (st : DriverState) (line : String) : DriverState × String :=
   | "num" :: args => (st, numCmd args)
   | "load" :: args => (st, loadCmd args)
   | "tsort" :: args => (st, tsortCmd args)
+  | "opt" :: args => (st, optCmd args)
   | "scope" :: args => let (s, o) := scopeCmd st.scope args; ({ st with scope := s }, o)
   | "omap" :: args => let (s, o) := omapCmd st.omap args; ({ st with omap := s }, o)
   | _ => (st, "bad-op")
